@@ -115,6 +115,19 @@ Definition same_reading (r1 r2 : outcome aux) : Prop :=
   | _, _ => False
   end.
 
+(* universal newlines: \r\n and \r read as \n (after_cr = the previous character was \r) *)
+Local Open Scope N_scope.
+Fixpoint translate_nl (s : str) (after_cr : bool) : str :=
+  match s with
+  | [] => []
+  | c :: t =>
+    if (c =? 10) && after_cr then translate_nl t false
+    else if c =? 13 then 10 :: translate_nl t true
+    else c :: translate_nl t false
+  end.
+
+Local Close Scope N_scope.
+
 (* ---- a small document used by the Examples of Props/C20.v *)
 Definition ln (s : string) : str := s2l s ++ [c_nl].
 Definition ex_fs : str -> option str := fs_of
